@@ -167,6 +167,21 @@ func (e *PathMatchExpression) addSegment(ident string) {
 //	candidate : some/path=key/more/path/here/and/here
 //	slice     :               and/here
 func (e *PathMatchExpression) PathMatches(base *Path, candidate *Path) bool {
+	return e.pathMatches(base, candidate, false)
+}
+
+// PathLeadsTo is like PathMatches but also true when candidate is on the way to a path
+// the selector names. Example with selector 'more/path' and base 'some'
+//
+//	some/more            true, leads to some/more/path
+//	some/more/path       true
+//	some/more/path/here  true
+//	some/other           false
+func (e *PathMatchExpression) PathLeadsTo(base *Path, candidate *Path) bool {
+	return e.pathMatches(base, candidate, true)
+}
+
+func (e *PathMatchExpression) pathMatches(base *Path, candidate *Path, orLeadsTo bool) bool {
 	// NOTE: empty selector means select everything
 	if len(e.paths) == 0 {
 		return true
@@ -178,39 +193,48 @@ func (e *PathMatchExpression) PathMatches(base *Path, candidate *Path) bool {
 			return true
 		}
 
-		if e.match(path, base, candidate) {
+		if e.match(path, base, candidate, orLeadsTo) {
 			return true
 		}
 	}
 	return false
 }
 
-func (e *PathMatchExpression) match(segs segments, base *Path, candidate *Path) bool {
+func (e *PathMatchExpression) match(segs segments, base *Path, candidate *Path, orLeadsTo bool) bool {
+	// idents of candidate below base
+	n := candidate.Len() - base.Len()
+	if n < 0 {
+		return false
+	}
+	tail := make([]string, n)
 	p := candidate
-	j := (candidate.Len() - base.Len()) - 1
-
-	// start navigation at the end of the tail as it would likely be more efficient the longer
-	// the path
-	for i := len(segs) - 1; i >= 0; {
-
-		// we keep peeling back slice as long as it continues to match candidate as we
-		// peel that back as well.
-		if j == i {
-			if p.Meta.Ident() != segs[i] {
-				return false
-			}
-			i--
+	for j := n - 1; j >= 0; j-- {
+		if p == nil || p.Meta == nil {
+			return false
 		}
+		tail[j] = p.Meta.Ident()
 		p = p.Parent
-		if p == nil {
-			panic("illegal call : base was not found to be any parent of candidate")
-		}
-		j--
 	}
 
-	// the subpath AFTER base path matches, now we have to see if we have same
+	// the subpath AFTER base path is known, now we have to see if we have same
 	// base paths
-	return p.EqualNoKey(base)
+	if p == nil || !p.EqualNoKey(base) {
+		return false
+	}
+
+	if n < len(segs) {
+		// candidate is above what the selector names
+		if !orLeadsTo {
+			return false
+		}
+		segs = segs[:n]
+	}
+	for i, seg := range segs {
+		if tail[i] != seg {
+			return false
+		}
+	}
+	return true
 }
 
 func (e *PathMatchExpression) String() string {
